@@ -314,6 +314,10 @@ func lemma_block_no_leak(i *ignore, meta *ast.Meta) {
 //@   ensures [lock-released C18] !l.mu.g_held
 //@   only-writers [C18] F:linter.Linter.Errors : Error
 
+// ---- C09 (return actions only): the action checked against the scope is the identifier, not its rendering ---
+//@ func (*Linter).lintReturnStatement [C09]
+//@   callassert [action-is-the-identifier C09] expectState: is(stmt.ReturnExpression, *ast.Ident) && stmt.ReturnExpression.(*ast.Ident) != nil ==> arg0 == stmt.ReturnExpression.(*ast.Ident).Value
+
 // the sweep: no reachable panic in any function of the package, for any (well-formed) syntax tree
 //@ forall-funcs .* [C11]
 //@   except ^lemma_|^verif
